@@ -18,7 +18,7 @@ PP_PATTERNS = ["^a", "^[bc]$", "."]
 ROOT_URLS = ["http://sim.test/root/main.json", "http://sim.test/root/main.json",
              "http://sim.test/main.json", "sim://h/r/main.json", ""]
 DOC_URLS = ["http://sim.test/root/d1.json", "http://sim.test/root/sub/d1.json", "http://sim.test/root/sub/d2.json",
-            "http://sim.test/d3.json", "sim://h/r/d4.json",
+            "http://sim.test/d3.json", "sim://h/r/d4.json", "sim://h/r/sub/d7.json", "urn:dsim:doc:8",
             "http://other.test/o/d5.json", "https://sim.test/root/d6.json"]
 TYPE_NAMES = {
     "draft3": ["any", "array", "boolean", "integer", "object", "null", "number", "string"],
@@ -318,7 +318,8 @@ class WorldGen(object):
         home = self.homes[j]
         url = self.root_url if home == "root" else home
         sp = spellings(base, url, "/definitions/" + ptr_token(self.names[j]))
-        if base and base.startswith("sim://") and url and self.rng.random() < 0.35:
+        if base and base.startswith(("sim://", "urn:")) and url and (url == base or not base.startswith("urn:")) \
+                and self.rng.random() < 0.35:
             # what users write inside a document of a scheme that urllib.parse.urljoin does not treat as
             # hierarchical: a same-document pointer or a sibling's file name.  urljoin hands such a reference back
             # UNJOINED, so today it is looked up as it stands (and usually is unresolvable) - deterministically,
